@@ -784,3 +784,50 @@ def r_ntv2_fields(cx):
                   "header field `%s` must be decoded from the record %s (offset + %d) but is computed from the value(s) "
                   "read at offset + %s" % (fname, rec, want, sorted(map(str, offs)) or "nothing"), cx.where(s["span"]))
     cx.count("R-NTV2-FIELDS", "fields", n)
+
+
+# ---------------------------------------------------------------------------------------------------------------------
+# R-ROWCOUNT-AGREE (C15): the Gravsoft reader and BaseGrid::plain derive the grid dimensions from the header alike
+
+def _rowcount_sites(f):
+    """(block, c) for values of the form floor(extent / step + c)"""
+    out = []
+    for bb, t in f.calls():
+        c = f.callee(t) or ""
+        if not c.endswith("::floor"):
+            continue
+        a = f.arg_terms(bb)
+        x = mir.strip_refs(a[0]) if a else None
+        if x is None or x[0] != "bin" or x[1] != "Add":
+            continue
+        for q, k in ((x[2], x[3]), (x[3], x[2])):
+            q, k = mir.strip_refs(q), mir.strip_refs(k)
+            if q[0] == "bin" and q[1] == "Div" and k[0] == "const" and isinstance(k[2], tuple) and k[2][0] == "float":
+                out.append((bb, float(k[2][1])))
+    return out
+
+
+@rule("R-ROWCOUNT-AGREE", ["C15"])
+def r_rowcount_agree(cx):
+    """The Gravsoft reader computes the number of rows and columns from the header (`floor(extent / step + 1.5)`) to
+    know how many values to expect; BaseGrid::plain computes them again from the same header for the grid it builds.
+    The two must round alike (the half step of slack absorbs the representation error of extents like 0.3 / 0.1):
+    all row/column counts of the plain-grid code use one and the same rounding constant."""
+    sites = []
+    for name in sorted(cx.f.lib["fns"]):
+        if not name.startswith("grid::") or name.startswith("grid::ntv2") or "::tests" in name:
+            continue
+        f = cx.f.fn(name)
+        for bb, c in _rowcount_sites(f):
+            sites.append((name, bb, c, f.term(bb)["span"]))
+    consts_ = sorted({c for _, _, c, _ in sites})
+    fns = sorted({n for n, _, _, _ in sites})
+    ok = len(sites) >= 2 and len(consts_) == 1
+    cx.ob("R-ROWCOUNT-AGREE", "grid/rounding", ok,
+          "all %d row / column counts of the plain-grid code are floor(extent / step + %s)" % (len(sites), consts_[0]) if ok else
+          ("anchor-missing: fewer than two row / column count computations in the plain-grid code" if len(sites) < 2 else
+           "the row / column counts of the plain-grid code round differently (%s in %s): for an extent that is not an exact "
+           "multiple of the step in floating point (54.0..54.3 by 0.1) the reader expects one row less than the grid it "
+           "then builds, and a valid file is rejected" % (consts_, ", ".join(fns))),
+          cx.where(sites[0][3]) if sites else "src/grid/mod.rs")
+    cx.count("R-ROWCOUNT-AGREE", "count_sites", len(sites))
